@@ -179,8 +179,8 @@ func candidates(c caseDoc) []caseDoc {
 func shrinkAndConfirm(p *propCfg, worker, dir string, cases []caseDoc) (caseDoc, *violation, string) {
 	sort.SliceStable(cases, func(i, j int) bool { return caseSize(cases[i]) < caseSize(cases[j]) })
 	sdir := filepath.Join(dir, "shrink")
-	var cur caseDoc
-	var want *violation
+	var cur, fallback caseDoc
+	var want, fallbackV *violation
 	for i, c := range cases {
 		if i >= 3 {
 			break
@@ -194,6 +194,16 @@ func shrinkAndConfirm(p *propCfg, worker, dir string, cases []caseDoc) (caseDoc,
 			cur, want = res, w
 			break
 		}
+		if v != nil && fallback == nil {
+			// the fresh process reports another violation for the same case (typically a
+			// data race that the exploring process had already reported once and therefore
+			// de-duplicated): still a confirmed violation, reported under what the fresh
+			// process says
+			fallback, fallbackV = res, v
+		}
+	}
+	if cur == nil && fallback != nil {
+		cur, want = fallback, fallbackV
 	}
 	if cur == nil {
 		return nil, nil, "no witness reproduced"
